@@ -219,6 +219,8 @@ func (c *SMTCtx) PreludeQ(quant bool) string {
 		b.WriteString("(assert (forall ((x (_ BitVec 64))) (! (= (unbe64 (be64 x)) x) :pattern ((be64 x)))))\n")
 		b.WriteString("(assert (forall ((x (_ BitVec 64))) (! (= (slen (be64 x)) #x0000000000000008) :pattern ((be64 x)))))\n")
 		b.WriteString("(assert (forall ((x Str)) (! (= (slen (sha256 x)) #x0000000000000020) :pattern ((sha256 x)))))\n")
+		b.WriteString("(assert (forall ((x Str)) (! (= (cat str_empty x) x) :pattern ((cat str_empty x)))))\n")
+		b.WriteString("(assert (forall ((x Str)) (! (= (cat x str_empty) x) :pattern ((cat x str_empty)))))\n")
 	}
 	b.WriteString("(assert (not (is_sentinel err_nil)))\n")
 	for i, s := range c.litOrder {
